@@ -512,6 +512,69 @@ fn direct_streams(ctx: &mut Ctx) {
             }
         }
     }
+    // (c) fixed scenarios: the same member name at two levels (one of the objects wide), list elements that are plain objects
+    // with hidden members at several depths; D1 then D2 (D2 below D1), narrowed against direct
+    {
+        let wide_root = |n: usize| -> Value {
+            let mut m: serde_json::Map<String, Value> = (0..n).map(|i| (format!("c{:02}", i), json!(i))).collect();
+            m.insert("id".into(), json!("root-id"));
+            m.insert("name".into(), json!("root-name"));
+            m.insert("c".into(), json!({"id": "child-id", "name": "child-name", "c00": "child-c00", "deep": {"id": "deep-id"}}));
+            m.insert("iss".into(), json!("https://issuer.example"));
+            m.insert("exp".into(), json!(now + 100000));
+            Value::Object(m)
+        };
+        let orders = json!({"iss": "https://issuer.example", "exp": now + 100000,
+                            "orders": [{"ref": "r0", "item": {"sku": "s0", "qty": 1}, "tags": ["a", {"t": "b"}]}, {"ref": "r1", "item": {"sku": "s1", "qty": 2}}, "plain", [{"ref": "r3"}]]});
+        let orders_paths: Vec<String> = ["$.orders[0].ref", "$.orders[0].item.sku", "$.orders[1].item.sku", "$.orders[1].ref", "$.orders[0].tags[1].t", "$.orders[3][0].ref"].iter().map(|p| p.to_string()).collect();
+        let scenarios: Vec<(&str, Value, Strategy, Vec<Value>)> = vec![
+            ("same-name-at-two-levels-10", wide_root(10), Strategy::All, vec![json!({"id": true, "c": {"id": true, "deep": {"id": true}}, "c03": true}), json!({"id": true}), json!({"c": {"id": true}}), json!({"c": {"deep": {"id": true}}})]),
+            ("same-name-at-two-levels-40", wide_root(40), Strategy::All, vec![json!({"id": true, "name": true, "c": {"id": true, "c00": true}}), json!({"id": true, "c": {"c00": true}}), json!({"c": {"id": true}}), json!({"name": true})]),
+            ("same-name-at-two-levels-top", wide_root(12), Strategy::Top, vec![json!({"id": true, "c": true}), json!({"id": true}), json!({"c": true})]),
+            ("plain-list-elements-with-hidden-members", orders.clone(), Strategy::Custom(orders_paths.clone()),
+             vec![json!({"orders": [{"item": {"sku": true}, "tags": [false, {"t": true}]}, {"ref": true, "item": {"sku": true}}, false, [{"ref": true}]]}),
+                  json!({"orders": [{"item": {"sku": true}}, {"item": {"sku": true}}]}), json!({"orders": [{"item": {"sku": true}}]}), json!({"orders": [{}, {"ref": true}]}), json!({"orders": [{"tags": [false, {"t": true}]}, false, false, [{"ref": true}]]})]),
+            ("plain-list-elements-all-levels", orders, Strategy::All,
+             vec![json!({"orders": [{"item": {"sku": true}}, {"ref": true, "item": true}, true]}), json!({"orders": [{"item": {"sku": true}}]}), json!({"orders": [false, {"ref": true}]})]),
+        ];
+        for (name, claims, st, sels) in scenarios {
+            for fmt in [Fmt::Compact, Fmt::Json] {
+                for decoy in [false, true] {
+                    let a = IssueArgs { claims: claims.clone(), strategy: st.clone(), holder: None, decoy, fmt, key: KeyId::IssuerEc, alg: None, queue: None };
+                    // several issuances: what a holder does with its maps may depend on the random digests
+                    for round in 0..(if ctx.tier == Tier::Quick { 3 } else { 12 }) {
+                        let issued = match issue(&a).out.ok() {
+                            Some(s) => s.clone(),
+                            None => continue,
+                        };
+                        let p1 = holder_session(&issued, fmt, &[PresentArgs::plain(sels[0].as_object().cloned().unwrap())]);
+                        let p1_text = match p1.calls.first().and_then(|c| c.out.ok()) {
+                            Some(p) => p.clone(),
+                            None => continue,
+                        };
+                        for d2 in sels.iter() {
+                            let pa = PresentArgs::plain(d2.as_object().cloned().unwrap());
+                            let direct = holder_session(&issued, fmt, &[pa.clone()]);
+                            let narrowed = holder_session(&p1_text, fmt, &[pa]);
+                            ctx.impl_calls += 4;
+                            ctx.evaluations += 1;
+                            ctx.oracle_checks += 1;
+                            ctx.count("stream.fixed_scenarios_direct");
+                            let case = json!({"scenario": name, "fmt": fmt.name(), "decoy": decoy, "round": round, "first_selection": sels[0], "second_selection": d2, "claims": claims, "strategy": st.json()});
+                            let (x, y) = (discl(&direct, 0, fmt), discl(&narrowed, 0, fmt));
+                            if x.is_some() && same(&x, &y) {
+                                ctx.nontrivial(&case);
+                            } else {
+                                ctx.violation("oracle", "present", &format!("narrowing ({}) differs from selecting directly", name), case,
+                                              json!({"narrowed": narrowed.calls.first().map(|c| c.out.class()), "disclosures": y.map(|v| v.iter().map(|d| decode_disclosure(d)).collect::<Vec<_>>())}),
+                                              json!({"direct": direct.calls.first().map(|c| c.out.class()), "disclosures": x.map(|v| v.iter().map(|d| decode_disclosure(d)).collect::<Vec<_>>())}));
+                            }
+                        }
+                    }
+                }
+            }
+        }
+    }
     // (b)
     for (k, fmt) in [Fmt::Compact, Fmt::Json, Fmt::Json, Fmt::Compact].into_iter().enumerate() {
         let claims = json!({"iss": "https://issuer.example", "exp": now + 100000, "a": 1, "b": {"x": 1, "y": [1, 2]}, "c": "three", "d": [4, {"e": 5}], "f": null, "g": true});
